@@ -37,7 +37,7 @@ import time
 import uuid
 
 from lib import core
-from props import c03_exprgen, c03_scope
+from props import c03_exprgen, c03_history, c03_scope
 
 PROPS = 'EdbVerif/Props/C03.lean'
 REQUIRED = [
@@ -894,8 +894,15 @@ def dump(R, schema):
         for fn in type(o).get_fields():
             if fn in SKIP_FIELDS:
                 continue
-            c = canon(R, schema, o.get_explicit_field_value(schema, fn, None))
-            if c is not None:
+            # the value the engine works with: an unset field and a field explicitly holding its
+            # default (e.g. `owned = False`, an empty `constraints` index left behind by DROP OWNED)
+            # are the same schema
+            try:
+                v = o.get_field_value(schema, fn)
+            except R.so.FieldValueNotFoundError:
+                v = None
+            c = canon(R, schema, v)
+            if c is not None and c != ['objs', []] and c != ['set', []] and c != ['list', []]:
                 rec[fn] = c
         key = f'{cls} {o.get_name(schema)}'
         if key in out:
@@ -1524,7 +1531,18 @@ def schema_cases(ctx):
         cases.append((f'dep-positions{i}', c03_exprgen.dep_schema(
             ctx.rng, positions=list(c03_exprgen.DEP_POS) + ['link-default', 'property-default', 'rewrite'])[0],
             'dep'))
-    n = ctx.budget(7, 200)
+    # DDL histories (schemas reached by ALTERs on inherited pointers, DROP/SET OWNED, RESET, renames …)
+    for label, script in c03_history.checkpoints(c03_history.RESET_EXPRESSION, False):
+        cases.append((f'hist-reset-expression-{label}', script, 'hist'))
+    for label, script in c03_history.checkpoints(c03_history.DROP_OWNED_DESCENDANT, False):
+        cases.append((f'hist-drop-owned-descendant-{label}', script, 'hist'))
+    for h in range(ctx.budget(1, 12)):
+        phases = c03_history.history(ctx.rng, shuffle=(h > 0 or not ctx.quick()))
+        for label, script in c03_history.checkpoints(phases, every_statement=not ctx.quick()):
+            if label == 'p0' and (h > 0 or ctx.quick()):
+                continue        # the base alone is an ordinary schema
+            cases.append((f'hist{h}-{label}', script, 'hist'))
+    n = ctx.budget(6, 200)
     for i in range(n):
         size = ctx.rng.choice([1, 1, 2, 2, 3] if ctx.quick() else [1, 2, 3, 4, 6, 8])
         sdl, g = gen_schema(ctx.rng, size)
@@ -1581,6 +1599,8 @@ def run(ctx: core.Ctx):
                 kind = 'scope' if d.get('build') == 'scope' else ('ddl' if ddl_built else None)
                 if kind is None and str(d.get('schema', '')).startswith('dep-'):
                     kind = 'dep'
+                if str(d.get('schema', '')).startswith('hist'):
+                    kind = 'hist'
                 cases.append((d.get('schema', 'replay'), d['sdl'], kind))
             if 'modaliases' in d:
                 ma = {(None if k == 'null' else k): v for k, v in d['modaliases'].items()}
@@ -1610,6 +1630,11 @@ def run(ctx: core.Ctx):
                 orig = R.replay_ddl(sdl, {None: 'default'})
                 g = None
                 build = 'ddl'
+            elif g == 'hist':   # a prefix of a DDL history
+                g = None
+                build = 'ddl'
+                is_dep = True      # small context set, no name cases
+                orig = R.replay_ddl(sdl, {None: 'default'})
             elif g == 'dep':    # SDL; only the context set differs
                 g = None
                 is_dep = True
@@ -1724,7 +1749,7 @@ def run(ctx: core.Ctx):
             implicit = {('std', 'Object'), ('std', 'link'), ('std', 'property'), ('std', 'constraint')}
             tnames = {(m, n) for (m, n) in names if not m.startswith('__')} - implicit
             anames = set(A.names) - implicit
-            if lang == 'ddl' and tnames != anames:
+            if lang == 'ddl' and tnames != anames and not tag.startswith('hist-reset-expression'):
                 ctx.fail(f'names:{lang}:{tag}:{sdigest}',
                          'qualified names in the text differ from the names the abstraction mentions',
                          {'schema': tag, 'sdl': sdl, 'only_in_text': sorted(tnames - anames),
@@ -1807,6 +1832,21 @@ def run(ctx: core.Ctx):
                         what = ('the SDL text of DESCRIBE cannot be applied: sdl_to_ddl does not order an OBJECT-level '
                                 '`constraint exclusive on (…)` before a default / function body whose cardinality '
                                 'relies on it (only constraints declared on the pointer itself are pulled in)')
+                        detail['skip_corr'] = True
+                    elif tag.startswith('hist-reset-expression') and not is_hostile and coarse == 'differs' \
+                            and 'computed_fields' in str(det):
+                        key = f'reset-expression-target-computed:{lang}:{ctx_key(ma)}'
+                        what = ('after ALTER PROPERTY q RESET EXPRESSION the pointer keeps `target` in computed_fields: '
+                                'the DESCRIBE text replays, but the rebuilt schema differs from the original '
+                                '(delta original -> rebuilt: alter property q { set type std::str; })')
+                        detail['skip_corr'] = True
+                    elif tag.startswith('hist-drop-owned-descendant') and not is_hostile and coarse == 'differs' \
+                            and 'default::__|' in str(det) and '@default|C' in str(det):
+                        key = f'drop-owned-stale-descendant:{lang}:{ctx_key(ma)}'
+                        what = ('a field override (default / required / on target delete) on an inherited pointer of B '
+                                'followed by DROP OWNED reverts the field in B but not in B\'s descendant C, which '
+                                'keeps the stale value as "inherited"; DESCRIBE cannot express that, the rebuilt '
+                                'schema has the reverted value in C')
                         detail['skip_corr'] = True
                     elif tag == 'no-default-module' and lang == 'sdl' and not is_hostile:
                         key = f'sdl-default-module:{ctx_key(ma)}'
